@@ -37,6 +37,9 @@ func runC12(ctx *Ctx, idx int) Result {
 	seed := CaseSeed(ctx.Seed, "C12", idx)
 	r := gen.New(seed)
 	SeedGlobalRand(seed)
+	if idx == 0 {
+		return runC12InvalidUTF8(ctx)
+	}
 	cfg := driver.Config{MemOnly: r.P(15), ReadbackK: 1, Walk: true, Churn: r.P(50), ReopenCheck: true, Decode: true}
 	hc := HistCfg{Steps: r.Range(25, 70), NColls: r.Range(1, 4), NKeys: r.Range(3, 10), KeyClass: gen.KeysShort, ValClass: gen.ValsShort,
 		Prio: gen.PrioRegime(r.Intn(int(gen.NumPrioRegimes))), Mix: mixC12, MaxSnaps: 2, Exotic: r.P(40), CustomCmp: r.P(40)}
@@ -89,4 +92,26 @@ func runC12(ctx *Ctx, idx int) Result {
 	nt := (h.Feat["setcoll-existing-nonempty"] || h.Feat["recreated"] || h.Feat["removecoll-nonempty"]) && (h.Feat["flush"] || h.Feat["reopen"])
 	return Result{Hash: histHash(h.E), NonTrivial: nt, Viol: violOf(h.E),
 		Sample: map[string]interface{}{"index": idx, "mem_only": cfg.MemOnly, "features": featList(h.Feat), "ops": tail(h.E.Trace, 40)}}
+}
+
+// runC12InvalidUTF8 is the scripted history of a recorded input class:
+// collection names that are not valid UTF-8 do not survive the JSON root record.
+func runC12InvalidUTF8(ctx *Ctx) Result {
+	e := driver.NewEnv("c12-utf8", driver.Config{Decode: false})
+	for _, n := range []string{"plain", "\xff", "\xfe"} {
+		e.SetCollection(n, "")
+		e.SetItem(n, []byte("k-"+n), []byte("v-"+n), 10, false)
+	}
+	e.Flush()
+	e.AfterStep()
+	if !e.Failed() {
+		e.Reopen(true) // compares the names and then the contents with the model
+		e.ReadbackAll(driver.RAll)
+	}
+	if e.Failed() {
+		e.Viol.Sig = "C12/invalid-utf8-collection-name/" + e.Viol.Sig
+		e.Viol.Detail = "collections named \"\\xff\" and \"\\xfe\" (not valid UTF-8) were flushed and the file re-opened: " + e.Viol.Detail
+	}
+	ctx.Add(e)
+	return Result{Hash: 12, NonTrivial: true, Viol: violOf(e), Sample: map[string]interface{}{"index": 0, "scripted": "invalid-utf8-collection-names", "ops": e.Trace}}
 }
